@@ -185,6 +185,9 @@ pub fn record(o: &Opts) -> Res<()> {
                 if mem_alive { mem.update(mk(&k), &v); out.ev(json!({"ev": "Insert", "t": tm, "k": hx(k), "v": hx(&v), "ok": true, "root": hx(mem.root()), "adds": [], "dels": [], "opaque": true})); }
                 map.insert(k, v);
             } else if roll < 55 && want("ops") {
+                // deletes are biased towards the special keys (all-zero = the placeholder's own "leaf key", all-one and
+                // their last-bit neighbours), present or ABSENT: an absent delete must leave root and node store alone
+                if rng.gen_bool(0.3) { k = pool[10 + rng.gen_range(0..4)]; }
                 for lv in live.iter_mut() {
                     let r = catch(std::panic::AssertUnwindSafe(|| lv.tree.delete(mk(&k)).is_ok()));
                     match r {
